@@ -75,7 +75,7 @@ impl Engine for MigrEngine {
                 },
                 7 | 8 => Op::Delete { key, ts: Ts::Auto },
                 9 => Op::Flush,
-                10 => Op::Advance { ns: 1_500_000_000 },
+                10 => if w.chance(1, 2) { Op::Flush } else { Op::Advance { ns: 1_500_000_000 } },
                 _ => Op::Incr { key, delta: 3, ts: Ts::Auto, ttl: 0 },
             });
         }
@@ -359,9 +359,18 @@ pub fn image_from_workload(sim: &Arc<Sim>, sc: &Scenario, crash: bool, pick: &mu
         env.cleanup();
         return None;
     }
+    if crash {
+        // cut the power inside the workload (often inside a flush batch or a retirement), so that
+        // the source carries an active journal / pending retirements
+        let at = disk.calls() + pick.range(0, 80);
+        disk.set_plan(FaultPlan { crash_at_call: Some(at), ..FaultPlan::default() });
+    }
     let mut model: Model = harness::new_model(&sc.store);
     let mut resolver = Resolver { keys: &sc.keys, writer: 0, counter: 0, format: sc.store.format };
     for op in &sc.clients[0] {
+        if disk.is_dead() {
+            break;
+        }
         if let Op::Advance { ns } = op {
             sim.advance(std::time::Duration::from_nanos(*ns));
             continue;
@@ -372,7 +381,7 @@ pub fn image_from_workload(sim: &Arc<Sim>, sc: &Scenario, crash: bool, pick: &mu
         let now0 = sim.now_wall();
         let res = harness::exec_call(env.st(), &call, false);
         let now1 = sim.now_wall();
-        if matches!(res, crate::model::Res::Err(crate::model::ErrKind::OutOfSpace)) {
+        if matches!(res, crate::model::Res::Err(crate::model::ErrKind::OutOfSpace)) || disk.is_dead() {
             break;
         }
         let obs = call.key().and_then(|k| env.obs(k));
@@ -383,8 +392,11 @@ pub fn image_from_workload(sim: &Arc<Sim>, sc: &Scenario, crash: bool, pick: &mu
         }
     }
     let image = if crash {
-        let capture = disk.capture_now();
+        let capture = disk.take_capture().unwrap_or_else(|| disk.capture_now());
         disk.kill();
+        if codec::read_journal(&capture.durable).map(|j| j.active).unwrap_or(false) {
+            report.count("source_with_active_journal", 1);
+        }
         let family = capture.family(512, 3, true, 2, pick);
         let v = &family[pick.below(family.len() as u32) as usize];
         report.count("source_from_crash_image", 1);
